@@ -27,7 +27,7 @@ From BigNum Require Import SpecBytes BytesLemmas Radix RadixText RadixKernels Ra
 From BigNum Require Import Sign SpecSign SignProofs Rand SpecRand RandProofs.
 From BigNum Require Import Prim SpecPrim PrimProofsCast PrimProofs PrimProofsFloat PrimProofsToFloat
   PrimProofsFromFloat InstPrim.
-From BigNum Require Import BitDigits BitDigitsProofs Iter IterProofs Bytes BytesProofs SignedBytesProofs InstIter.
+From BigNum Require Import BitDigits BitDigitsProofs Iter IterProofs Bytes BytesProofs SignedBytesProofs InstIter InstBytes.
 Import ListNotations.
 Open Scope Z_scope.
 
@@ -676,28 +676,28 @@ Print Assumptions C14_conversions_never_panic.
 
 (** * C09 — byte / digit-vector conversions and the digit iterators never panic *)
 Theorem C14_bytes_never_panic :
-  (forall u, canon u -> total (uto_bytes_le u) /\ total (uto_bytes_be u) /\ total (uto_u32_digits Extracted.iter u)) /\
-  (forall x, icanon x -> total (ito_bytes_le x) /\ total (ito_bytes_be x) /\ total (ito_u32_digits Extracted.iter x) /\
-                         total (to_signed_bytes_le x) /\ total (to_signed_bytes_be x)) /\
-  (forall bs, inb 256 bs -> total (ufrom_bytes_le bs) /\ total (ufrom_bytes_be bs) /\
-                            total (from_signed_bytes_le bs) /\ total (from_signed_bytes_be bs) /\
-                            forall s, total (ifrom_bytes_le s bs) /\ total (ifrom_bytes_be s bs)).
+  (forall u, canon u -> total (uto_bytes_le Extracted.byteio u) /\ total (uto_bytes_be Extracted.byteio u) /\ total (uto_u32_digits Extracted.iter u)) /\
+  (forall x, icanon x -> total (ito_bytes_le Extracted.byteio x) /\ total (ito_bytes_be Extracted.byteio x) /\ total (ito_u32_digits Extracted.iter x) /\
+                         total (to_signed_bytes_le Extracted.byteio x) /\ total (to_signed_bytes_be Extracted.byteio x)) /\
+  (forall bs, inb 256 bs -> total (ufrom_bytes_le Extracted.byteio bs) /\ total (ufrom_bytes_be Extracted.byteio bs) /\
+                            total (from_signed_bytes_le Extracted.byteio bs) /\ total (from_signed_bytes_be Extracted.byteio bs) /\
+                            forall s, total (ifrom_bytes_le Extracted.byteio s bs) /\ total (ifrom_bytes_be Extracted.byteio s bs)).
 Proof.
   split; [|split]; intros; repeat split; eapply ret_never_panics.
-  - apply uto_bytes_le_spec; auto.
-  - apply uto_bytes_be_spec; auto.
+  - apply uto_bytes_le_spec; auto using bytes_params_ok.
+  - apply uto_bytes_be_spec; auto using bytes_params_ok.
   - apply uto_u32_digits_spec; auto using iter_params_ok.
-  - apply ito_bytes_le_spec; auto.
-  - apply ito_bytes_be_spec; auto.
+  - apply ito_bytes_le_spec; auto using bytes_params_ok.
+  - apply ito_bytes_be_spec; auto using bytes_params_ok.
   - apply ito_u32_digits_spec; auto using iter_params_ok.
-  - apply to_signed_bytes_le_spec; auto.
-  - apply to_signed_bytes_be_spec; auto.
-  - apply ufrom_bytes_le_spec; auto.
-  - apply ufrom_bytes_be_spec; auto.
-  - apply from_signed_bytes_le_spec; auto.
-  - apply from_signed_bytes_be_spec; auto.
-  - apply ifrom_bytes_le_spec; auto.
-  - apply ifrom_bytes_be_spec; auto.
+  - apply to_signed_bytes_le_spec; auto using bytes_params_ok.
+  - apply to_signed_bytes_be_spec; auto using bytes_params_ok.
+  - apply ufrom_bytes_le_spec; auto using bytes_params_ok.
+  - apply ufrom_bytes_be_spec; auto using bytes_params_ok.
+  - apply from_signed_bytes_le_spec; auto using bytes_params_ok.
+  - apply from_signed_bytes_be_spec; auto using bytes_params_ok.
+  - apply ifrom_bytes_le_spec; auto using bytes_params_ok.
+  - apply ifrom_bytes_be_spec; auto using bytes_params_ok.
 Qed.
 Print Assumptions C14_bytes_never_panic.
 
